@@ -466,6 +466,50 @@ def c14_wrapper_isolation(first: int, second: int, boost: int) -> bool:
     return ok
 
 
+ENTRY_KINDS = ["wrap(main + parts)", "wrap_submodule(part_a)", "wrap_submodule(multi)", "wrap_file(text) without a module name", "wrap(main only)"]
+
+
+def _entry(w, kind):
+    """run one pybind entry point on wrapper w through the recorder; returns what it produced"""
+    srcs = [os.path.join(DATA, n) for n in ("main.i", "part_a.i", "multi.i")]
+    with patched_io() as rec:
+        if kind == 0:
+            w.wrap(list(srcs), "out/main.cpp")
+        elif kind == 1:
+            w.wrap_submodule(srcs[1])
+        elif kind == 2:
+            w.wrap_submodule(srcs[2])
+        elif kind == 3:
+            return {"returned": w.wrap_file(read_data("main.i"))}
+        else:
+            w.wrap([srcs[0]], "out/main.cpp")
+        return dict(rec.written)
+
+
+def c14_entry_sequence(first: int, second: int, boost: int) -> bool:
+    """
+    One wrapper object used through two entry points in a row (wrap, wrap_submodule, wrap_file — as a build script that
+    re-uses its wrapper does): what the SECOND call produces equals what a fresh wrapper produces for it.
+    pre: 0 <= first < len(ENTRY_KINDS) and 0 <= second < len(ENTRY_KINDS) and 0 <= boost <= 1
+    post: _
+    """
+    first, second, boost = pick(first, 0, len(ENTRY_KINDS)), pick(second, 0, len(ENTRY_KINDS)), pick(boost, 0, 2)
+    with concrete():
+        def mk():
+            return PybindWrapper(module_name="mymod", top_module_namespaces=[''], use_boost_serialization=bool(boost), ignore_classes=[''], module_template=tpl())
+        w = mk()
+        try:
+            _entry(w, first)
+            got = _entry(w, second)
+            want = _entry(mk(), second)
+            ok = got == want or _fail(first=ENTRY_KINDS[first], second=ENTRY_KINDS[second], boost=boost,
+                                      diff=[(a, b) for k in want for a, b in zip(str(got.get(k, "")).split("\n"), str(want[k]).split("\n")) if a != b][:4])
+        except Exception as ex:
+            ok = _fail(first=ENTRY_KINDS[first], second=ENTRY_KINDS[second], exception=repr(ex))
+    reached({"first": ENTRY_KINDS[first], "second": ENTRY_KINDS[second], "boost": boost})
+    return ok
+
+
 def c14_repeat_fresh(t: int, boost: int) -> bool:
     """
     Two fresh wrappers of each kind on the same text give identical results (no module-level state).
@@ -501,5 +545,7 @@ def conds(tier):
                 bounds="%d texts x 4 further hash seeds x serialization, fresh interpreters, another working directory" % len(SEED_TEXTS)),
         xh.Cond(M, "c14_wrapper_isolation", t(200, 600), kind=sb, examples=["first=0, second=0, boost=0", "first=1, second=2, boost=1", "first=3, second=1, boost=0"],
                 bounds="%d earlier (text, ignore list) x %d later texts x serialization, compared with a pristine interpreter" % (len(ISO_FIRST), len(ISO_SECOND))),
+        xh.Cond(M, "c14_entry_sequence", t(200, 600), kind=sb, examples=["first=1, second=0, boost=0", "first=2, second=3, boost=1", "first=0, second=1, boost=0", "first=3, second=4, boost=1"],
+                bounds="%d x %d ordered pairs of pybind entry points on one wrapper x serialization" % (len(ENTRY_KINDS), len(ENTRY_KINDS))),
         xh.Cond(M, "c14_repeat_fresh", t(120, 600), kind=sb, examples=["t=2, boost=1"], bounds="%d texts x serialization" % NT),
     ]
